@@ -66,7 +66,13 @@ fn with_failure(mut p: refasm::Program, pos: usize, which: usize) -> refasm::Pro
 
 pub fn judge_case(c: &Case) -> Obs {
     let mut obs = Obs::default();
-    let built = proggen::build(&c.spec);
+    // injected references go behind the program: keep the image-fit padding (which fills the address
+    // space) out of those cases, or label distances beyond 2^16 come into play (C04's known finding)
+    let mut spec = c.spec.clone();
+    if c.fail_at.is_some() || c.back_total.is_some() {
+        spec.fit = 0;
+    }
+    let built = proggen::build(&spec);
     let nstmts = built.program.lines.iter().filter(|l| matches!(l.body, Body::Stmt(_))).count();
     let program = match (c.back_total, c.fail_at) {
         (Some(total), _) => {
